@@ -372,7 +372,7 @@ func (rc *runCtx) exec(tid int, cur pdf.Cursor, o op) {
 	}
 }
 
-var stepTimeout = 5 * time.Second
+var stepTimeout = 15 * time.Second
 
 // no program of this harness needs more than ~1600 steps (the chain of 260)
 const maxSteps = 4000
